@@ -105,6 +105,24 @@ func (u *Unit) VerifyFunc() {
 				continue
 			}
 			st.Assume(g)
+			// `requires held(mu)`: the caller holds mu for the whole call
+			var walk func(x Expr)
+			walk = func(x Expr) {
+				switch x := x.(type) {
+				case EBinary:
+					if x.Op == "&&" {
+						walk(x.X)
+						walk(x.Y)
+					}
+				case ECall:
+					if x.Fn == "held" && len(x.Args) == 1 {
+						if mv, err := env.Eval(x.Args[0]); err == nil {
+							st.HeldMus = append(st.HeldMus, mv.T)
+						}
+					}
+				}
+			}
+			walk(cl.Expr)
 		}
 	}
 	u.globalAxioms(st)
